@@ -285,7 +285,7 @@ def gen_sequences(ctx):
                     seqs.append({"n": n, "ops": [a, b]})
                 seqs.append({"n": n, "pre": pre, "ops": [a, b]})
     n_exh = len(seqs)
-    plan = [(150, 30, 60)] if quick else [(3000, 30, 60), (300, 100, 200)]
+    plan = [(150, 30, 60)] if quick else [(1500, 30, 60), (150, 100, 200)]
     for (per_arity, lo, hi) in plan:
         for n in range(10):
             for _ in range(per_arity):
